@@ -1,6 +1,7 @@
 package lab
 
 import (
+	_ "verif/lab/clntlab"
 	_ "verif/lab/codec"
 	_ "verif/lab/srvlab"
 )
